@@ -360,10 +360,20 @@ pub fn check(rep: &Reporter) {
 	rep.assume("request_timeout is 1 h and time is virtual, so 'prompt' = before quiescence; the harness transport reports peer close as a receive error like the WebSocket transport does");
 	let bound = if thorough { 3 } else { 2 };
 	let scen = scenarios(thorough);
+	let t0 = std::time::Instant::now();
+	let budget = Duration::from_secs(if thorough { 1200 } else { 40 });
+	let mut reduced = 0u64;
 	for s in &scen {
-		// whole tree when it is small, else all schedules with at most `bound` deviations
-		sched::explore_auto(s, rep, if thorough { 200_000 } else { 3_000 }, bound, if thorough { 10 } else { 50 }, Duration::from_secs(if thorough { 60 } else { 5 }));
+		// whole tree when it is small, else all schedules with at most `bound` deviations; once the tier's time budget
+		// is used up the remaining scenarios are still explored, but with the quick tier's caps
+		let over = t0.elapsed() > budget;
+		if over {
+			reduced += 1;
+		}
+		let (cap, b, tc) = if thorough && !over { (60_000, bound, 20) } else { (3_000, 2, 5) };
+		sched::explore_auto(s, rep, cap, b, if thorough { 10 } else { 50 }, Duration::from_secs(tc));
 	}
+	rep.extra("scenarios_explored_with_reduced_caps_after_time_budget", json!(reduced));
 	// hostile messages
 	for text in hostile_messages() {
 		for pending in [vec![], vec![FeOp::Call]] {
